@@ -468,6 +468,9 @@ class FnLower:
             self.emit('vp_exc = vp_cur; /* throw; */')
         else:
             tn = norm(qt(e['inner'][0]['type']))
+            try: scalar = self.L.tinfo(e['inner'][0]['type'])[0] in ('builtin', 'ptr')
+            except Unsupported: scalar = False
+            if scalar: self.expr_stmt(e['inner'][0])   # the operand is evaluated (it may have side effects, e.g. THROW((_1 += 1, 7))); class-type exception objects are not built
             kind = 'VP_EXC_LOGIC_ERROR' if 'logic_error' in tn else ('VP_EXC_VIOLATION' if 'expectation_violation' in tn else 'VP_EXC_OTHER')
             self.emit('vp_exc = %s; /* throw %s */' % (kind, tn))
         self.propagate()
